@@ -101,8 +101,10 @@ pub fn create_ts_authenticate(nego: Vec<u8>, pub_key_auth: Vec<u8>) -> Vec<u8> {
 }
 
 pub fn read_public_certificate(stream: &[u8]) -> RdpResult<X509Certificate> {
-    let res = parse_x509_der(stream).unwrap();
-    Ok(res.1)
+    match parse_x509_der(stream) {
+        Ok(res) => Ok(res.1),
+        Err(_) => Err(Error::RdpError(RdpError::new(RdpErrorKind::InvalidData, "CSSP: unable to parse the peer certificate")))
+    }
 }
 
 /// read ts validate
